@@ -8,6 +8,7 @@ for j in /tmp/seedconf/*.json; do
   case $n in
     R2_*) p=$(echo $n | cut -d_ -f2); m=$(echo $n | cut -d_ -f3); src=/tmp/seedout2/$p/$m; k="r2-${m#m}";;
     R3_*) p=$(echo $n | cut -d_ -f2); m=$(echo $n | cut -d_ -f3); src=/tmp/seedout3/$p/$m; k="r3-${m#m}";;
+    R4_*) p=$(echo $n | cut -d_ -f2); m=$(echo $n | cut -d_ -f3); src=/tmp/seedout4/$p/$m; k="r4-${m#m}";;
     *)    p=$(echo $n | cut -d_ -f1); m=$(echo $n | cut -d_ -f2); src=/tmp/seedout/$p/$m; k="${m#m}";;
   esac
   [ -f $src/eval.json ] || { echo "no eval: $n"; continue; }
